@@ -52,7 +52,7 @@ fn positions() -> Vec<E> {
     vec![l("0"), l("1"), l("2"), l("3"), l("5"), l("6"), l("7"), l("254"), l("255"), l("256"), l("32767"), n("1"), n("32767"), l("2.5"), l("0.9"), l("1D0"), l("32768"), l("65536"), n("0.5"), l("2.99999999#"), l("0.99999999#"), l("255.99999999#"), l("1.9999999")]
 }
 
-const FORMS: usize = 26;
+const FORMS: usize = 27;
 
 fn print_b(e: E) -> Stmt {
     Stmt::Print(vec![PItem::Expr(E::Str("<".into())), PItem::Semi, PItem::Expr(e), PItem::Semi, PItem::Expr(E::Str(">".into()))])
@@ -164,6 +164,23 @@ fn case(f: usize, s: &E, p: &E, i: &E, j: &E) -> Vec<Stmt> {
                 print_b(call("LEFT$", vec![v("T$"), E::Lit("2".into())])),
                 print_b(call("INSTR", vec![i.clone(), sps.clone(), v("P$")])),
                 print_b(call("ASC", vec![ss])),
+            ]
+        }
+        26 => {
+            // a number where the string belongs is a TYPE MISMATCH whatever the count is (also 0)
+            let n = |x: &str| E::Lit(x.to_string());
+            vec![
+                print_b(call("RIGHT$", vec![i.clone(), n("0")])),
+                print_b(call("RIGHT$", vec![i.clone(), n("1")])),
+                print_b(call("LEFT$", vec![i.clone(), n("0")])),
+                print_b(call("LEFT$", vec![i.clone(), n("255")])),
+                print_b(call("MID$", vec![i.clone(), n("1"), n("0")])),
+                print_b(call("MID$", vec![i.clone(), n("1")])),
+                print_b(call("MID$", vec![i.clone(), n("300")])),
+                print_b(call("INSTR", vec![i.clone(), v("S$")])),
+                print_b(call("INSTR", vec![n("1"), i.clone(), E::Str(String::new())])),
+                print_b(call("STRING$", vec![n("0"), v("S$")])),
+                print_b(bin(Bin::Lt, i.clone(), v("S$"))),
             ]
         }
         // metamorphic identities (each must print -1)
@@ -367,7 +384,7 @@ fn check_val(t: &mut Tape, ctx: &Ctx) -> Outcome {
 pub fn property() -> Property {
     Property {
         id: "C07",
-        rule: "Cases: 26 forms — the cutting functions applied to intermediate values that were never stored and exceed 255 characters (S$+S$, S$+P$+S$: cut exactly, only the store is limited), LEN, LEFT$, RIGHT$, MID$ (2 and 3 arguments), INSTR (2 and 3 arguments), ASC, CHR$, STRING$ (string and code), SPC, STR$/VAL, HEX$/OCT$, MID$ assignment (2 and 3 arguments), wrong-kind arguments (a string where a number belongs and vice versa: TYPE MISMATCH), the 255-character store limit (for $ names, DEFSTR names and array elements), comparison and concatenation (string + number in either order is TYPE MISMATCH, also for the empty string), and four metamorphic identities \
+        rule: "Cases: 27 forms — the cutting functions applied to intermediate values that were never stored and exceed 255 characters (S$+S$, S$+P$+S$: cut exactly, only the store is limited), LEN, LEFT$, RIGHT$, MID$ (2 and 3 arguments), INSTR (2 and 3 arguments), ASC, CHR$, STRING$ (string and code), SPC, STR$/VAL, HEX$/OCT$, MID$ assignment (2 and 3 arguments), wrong-kind arguments (a string where a number belongs and vice versa: TYPE MISMATCH), the 255-character store limit (for $ names, DEFSTR names and array elements), comparison and concatenation (string + number in either order is TYPE MISMATCH, also for the empty string), and four metamorphic identities \
 (LEFT$(s,n)+MID$(s,n+1)=s; LEN(LEFT$(s,n))=min(n,len); CHR$(ASC(c))=c; an INSTR hit r satisfies MID$(s,r,LEN(p))=p). (matrix) the exhaustive cross product of 12 subject strings (empty, ASCII, 2/3/4-byte characters, mixed, 254/255-character strings built by STRING$ and concatenation), 11 patterns and 19 positions/counts \
 (0, 1, 2, len-1, len, len+1, 254..256, 32767, 32768, 65536, negative, fractional, Double); (random) proptest-generated strings over a 16-character alphabet with patterns cut out of the subject; (val_texts) VAL of generated numeric texts: signs, digits, fraction, E e D d exponents, type suffixes, & and &H forms over all hex digits in both cases, leading blanks, trailing junk. \
 Oracle: reference implementations on characters written from Chapter 3; results exact, out-of-domain arguments must give a BASIC error (the named code where the manual names one). Open points skipped: INSTR with a negative start, INSTR beyond the end with an empty pattern. \
